@@ -960,6 +960,23 @@ fn cmd_run(o: &Opts) -> i32 {
             n_sys = sys.len();
             collect(&mut st, &mut found, &sys);
         }
+        // phase 4a: seeded garbage in meta.json over a complete, a foreign and a missing index
+        {
+            let n = o.runs.map(|r| r / 4).unwrap_or(if quick { 36 } else { 900 });
+            let mut r = Rng::new(derive(o.seed, "C15-garbage", 0));
+            let cells: Vec<History> = (0..n)
+                .map(|i| {
+                    let (meta, reads_as_current) = gen::random_garbage(&ctx, &mut r);
+                    let mut index = *r.pick(&[anything_sim::dirstate::IndexSpec::Complete, anything_sim::dirstate::IndexSpec::Foreign, anything_sim::dirstate::IndexSpec::Absent, anything_sim::dirstate::IndexSpec::Complete]);
+                    if reads_as_current && index == anything_sim::dirstate::IndexSpec::Foreign {
+                        index = anything_sim::dirstate::IndexSpec::Complete;
+                    }
+                    let seed = derive(o.seed, "C15-garbage", i as u64 + 1);
+                    gen::c15_cell(&ctx, "meta-garbage(seeded)", &gen::state(true, meta, index), vec![], subset.clone(), seed)
+                })
+                .collect();
+            collect(&mut st, &mut found, &cells);
+        }
         // phase 4b: a real full disk. The data directory lives on a file system of its own whose
         // capacity is swept page by page and inode by inode over everything a rebuild needs.
         let mut n_disk = 0;
